@@ -474,3 +474,35 @@ def _consumer_reck_noisy(n: int, h: int, cross: bool, hp: int, lossy: bool, sub:
     post: _
     """
     return _untraced(_consumer_body, n, h, cross, hp, 5, lossy, sub)
+
+
+def _frozen_copy_keeps_original(n: int, m: int, grouped: bool, heralded: bool) -> bool:
+    """
+    pre: 3 <= n <= 4 and 0 <= m <= n - 3
+    post: _
+    """
+    # copy(freeze_parameters=True) is about the copy: the circuit it is called on keeps its Parameter
+    # objects (also those inside groups) and keeps following them afterwards
+    r = lw.Parameter(0.3)
+    phi = lw.Parameter(0.7)
+    sub = lw.Circuit(3)
+    sub.bs(0, reflectivity=r)
+    sub.ps(1, phi)
+    if heralded:
+        sub.herald(0, 2)
+    c = lw.Circuit(n)
+    c.add(sub, m, group=grouped)
+    before = observe_light(c)
+    frozen = c.copy(freeze_parameters=True)
+    if len(frozen.get_all_params()) != 0:
+        return False
+    ps = c.get_all_params()
+    if len(ps) != 2 or not any(p is r for p in ps) or not any(p is phi for p in ps):
+        return False
+    if observe_light(c) != before:
+        return False
+    snap_frozen = observe_light(frozen)
+    r.set(0.9)
+    phi.set(0.1)
+    # the original follows the new values (its observable spec changes), the frozen copy does not
+    return observe_light(c) != before and observe_light(frozen) == snap_frozen and observe_light(sub) != None
